@@ -50,7 +50,7 @@ var vfRouteClass = map[string]string{
 // is the credential shape one the class accepts?
 func vfShapeAcceptable(class, shape string, webuiHasPassword bool) (bool, bool) {
 	switch shape {
-	case "none", "basic-wrong", "expired-cookie", "forged-cookie", "wrongkind-cookie", "ipcert-outside", "ipcert-outside-fwd", "denied-key-cert", "foreign-cert":
+	case "none", "basic-wrong", "basic-old", "expired-cookie", "forged-cookie", "wrongkind-cookie", "ipcert-outside", "ipcert-outside-fwd", "denied-key-cert", "foreign-cert":
 		return false, true
 	case "lowlevel-cookie": // an authentic session below the web-UI level
 		switch class {
@@ -137,6 +137,13 @@ func init() {
 		case "none":
 		case "basic-wrong":
 			r.Basic = &[2]string{"alice", "guess"}
+		case "basic-old":
+			// the password the directory accepted before the user changed it (the directory is up and now rejects it)
+			old := w.oldPassword["alice"]
+			if old == "" || w.cfg.PwBackend != "ldap" {
+				return nil
+			}
+			r.Basic = &[2]string{"alice", old}
 		case "expired-cookie":
 			if w.expiredCookie == "" {
 				return nil
@@ -309,7 +316,7 @@ func routeSetup(w *vfWorld) {
 			w.violate("C06", cls, cls+":backend:"+key, fmt.Sprintf("%s %s with credential shape %q started a second-factor backend transaction", pr.Method, pr.Route, pr.Shape))
 		}
 		after := w.snapshot(profileDBFilename)
-		if !after.equal(pr.Before) {
+		if !after.equalProtected(pr.Before) {
 			w.violate("C06", cls, cls+":db:"+key, fmt.Sprintf("%s %s with credential shape %q changed the profile store: %s -> %s", pr.Method, pr.Route, pr.Shape, pr.Before, after))
 		}
 		if strings.Contains(string(resp.Body), vfSecretTokenName) {
@@ -362,12 +369,17 @@ func genRoutePlan(r *rand.Rand, tier string) *vfPlan {
 		add(vfStep{Op: "mintsession", Sess: "own", User: "mallory", N: int64(AuthTypePassword)})
 		add(vfStep{Op: pick(r, []string{"totp", "vipotp"}), Sess: "own", A: "cur", L: []string{"precookie:victim"}})
 	}
-	if chance(r, 0.25) {
+	if chance(r, 0.2) {
+		// passwords come from a directory (with the offline hash cache); alice has logged in and then changed her password
+		p.Cfg.PwBackend, p.Cfg.LDAPServers = "ldap", pick(r, []int{1, 2})
+		add(vfStep{Op: "login", Sess: "pre", User: "alice", B: "form"})
+		add(vfStep{Op: "dir_setpw", User: "alice", N: 7})
+	} else if chance(r, 0.25) {
 		// passwords are checked by an external helper program, which may die or fail on its own
 		p.Cfg.PwBackend = "command"
 		add(vfStep{Op: "helper_mode", A: pick(r, []string{"kill", "kill", "exit3", "ok"})})
 	}
-	shapes := []string{"none", "basic-wrong", "expired-cookie", "forged-cookie", "wrongkind-cookie", "lowlevel-cookie", "usercert", "denied-key-cert", "denied-key-cert", "foreign-cert", "ipcert-outside", "ipcert-outside-fwd", "csrf", "csrf"}
+	shapes := []string{"none", "basic-wrong", "basic-old", "expired-cookie", "forged-cookie", "wrongkind-cookie", "lowlevel-cookie", "usercert", "denied-key-cert", "denied-key-cert", "foreign-cert", "ipcert-outside", "ipcert-outside-fwd", "csrf", "csrf"}
 	methods := []string{"GET", "POST", "POST", "PUT", "DELETE", "HEAD", "OPTIONS"}
 	n := 25 + r.IntN(40)
 	if tier == "thorough" {
